@@ -398,7 +398,7 @@ def run(ctx):
     daemon_phase(ctx, rng, 40 if ctx.quick else 400)
     # galaxy-ipam's side of the hand-over: the annotation Bind writes (real FloatingIPPlugin vs Model/Plugin.v, regression and
     # incarnation scenarios incl. a second Bind of the same incarnation after a failed pods/binding call)
-    plugincheck.run(ctx, "C13", [], [], mon_c13_bind, nrandom=(40, 400), per_config=(1, 2))
+    plugincheck.run(ctx, "C13", [], [], mon_c13_bind, nrandom=(40, 400), per_config=(1, 2), all_steps=True)
     corr, idx_corr, mons, mon_info = [], [], [], []
     for i, (c, o) in enumerate(zip(cases, obs)):
         ctx.count(c)
